@@ -34,6 +34,27 @@ Proof.
     rewrite (IH rest f eq_refl) by lia. reflexivity.
 Qed.
 
+Lemma enc_labels_length labels b : enc_labels labels = Some b -> (length labels < length b)%nat.
+Proof.
+  revert b. induction labels as [|l r IH]; intros b E.
+  - cbn [enc_labels] in E. apply Some_inj in E. subst b. cbn. lia.
+  - cbn [enc_labels] in E. destruct ((1 <=? zlen l) && (zlen l <=? 63)); [|discriminate].
+    destruct (enc_labels r) as [rest|] eqn:Er; cbn [obind] in E; [|discriminate]. apply Some_inj in E. subst b.
+    specialize (IH rest eq_refl). rewrite !app_length. cbn [length]. unfold enc_uint. rewrite be_enc_length. lia.
+Qed.
+
+(* MX: what the specification encodes decodes to the same preference and exchange, the null MX of RFC 7505 included *)
+Lemma dec_enc_mx pref exchange b : 0 <= pref < 65536 -> enc_mx pref exchange = Some b -> dec_mx b = Some (pref, exchange).
+Proof.
+  intros Hp E. unfold enc_mx in E. destruct (enc_labels exchange) as [n|] eqn:En; cbn [obind] in E; [|discriminate].
+  apply Some_inj in E. subst b. unfold dec_mx.
+  rewrite dec_enc_uint by (change (256 ^ Z.of_nat 2) with 65536; lia). cbn [obind].
+  pose proof (enc_labels_length _ _ En) as L.
+  rewrite <- (app_nil_r n) at 2. rewrite (dec_enc_labels exchange n [] (S (length n)) En) by lia. cbn [obind]. reflexivity.
+Qed.
+Example null_mx : enc_mx 0 [] = Some [Byte.x00; Byte.x00; Byte.x00] /\ dec_mx [Byte.x00; Byte.x00; Byte.x00] = Some (0, []).
+Proof. split; reflexivity. Qed.
+
 (* ECDSA keys (RFC 6605): what the specification encodes decodes to the same point, and the key has exactly 2 x 32 or
    2 x 48 octets; EdDSA keys (RFC 8080) are 32 or 57 octets taken verbatim *)
 From CP Require Import Lemmas.UnitLemmas.
